@@ -73,6 +73,8 @@ m = {"version": 1, "setup_cmd": "./check setup",
          "serves_properties": ["C15"], "kind_free_text": "TLA+ specification of the discovery protocol (Discover / Announce / joiner's loop, adversary, failures); TLC; real gossipers behind loopback gRPC servers; TLC trace validation (also ./check M01)"},
         {"name": "webhooks", "path": "specs/Webhooks.tla specs/WebhooksTrace.tla harness/cmd/drive/webhookdrv.go runner/webhookchk.py",
          "serves_properties": ["C15"], "kind_free_text": "TLA+ specification of the webhook subscriptions (subscribe / replace / remove / notify, endpoints failing, adversary); TLC; the real service and handler with loopback HTTP endpoints; TLC trace validation (also ./check W01)"},
+        {"name": "balancecache", "path": "specs/BalanceCache.tla specs/BalanceCacheTrace.tla harness/cmd/drive/balancedrv.go runner/balancechk.py",
+         "serves_properties": [], "kind_free_text": "TLA+ specification of the notary's balance cache and read throttle (cached value, goroutine save, invalidation by seals); TLC incl. two documented refutations; the real notary server on a real ledger; TLC trace validation (./check B01; serves no listed property)"},
         {"name": "locks", "path": "specs/WalkLocks.tla specs/WalkLocksMC.tla specs/WalkLocksTrace.tla harness/cmd/drive/locks.go runner/locks.py",
          "serves_properties": ["C08"], "kind_free_text": "explicit TLA+ specification of locks, walker goroutines and channels; TLC safety + liveness; real-code fault enumeration judged by TLC"}],
      "checks": [], "not_applicable": [], "notes": "see DESIGN.md; known findings in known_findings.json"}
